@@ -348,6 +348,9 @@ func c30Shrink(raw json.RawMessage) []json.RawMessage {
 		out = append(out, b)
 	}
 	for i, o := range in.Ops {
+		if len(in.Ops) > 6 || len(out) > 24 {
+			break // polish values only once the history is short
+		}
 		if o.Op == "adv" && o.D > 1 {
 			for _, nd := range []int64{o.D / 2, o.D - 1} {
 				c := in
